@@ -77,7 +77,7 @@ inductive Ev
   | callLock (f : Nat) | retLock (f : Nat)
   | callTry (f : Nat) | retTry (f : Nat) (r : Bool)
   | callUnlock (f : Nat) | retUnlock (f : Nat)
-  | csEnter (f : Nat) | csExit (f : Nat)
+  | csEnter (f : Nat) | csExit (f : Nat) (v : Nat)
   | fsub (f : Nat) (old : Int)
   | fadd (f : Nat) (old : Int)
   | casCounter (f : Nat) (found : Int) (ok : Bool)
@@ -112,6 +112,16 @@ structure St where
   owner : Option Nat
   /-- ghost: fibers inside the harness's critical section -/
   inCs : List Nat
+  /-- ghost: a waker has popped a waiter (`w head`) and has not yet finished waking it (its last
+      access to the waiter's `state` word, after which it calls `fiber_manager_schedule`).  A
+      handed-off waiter resumes only after that (guard of `retLock` from `parked`): the runtime
+      runs a parked fiber only after it was scheduled (C01), validated on every trace. -/
+  waking : Bool
+  /-- the harness's protected cell `shared` (plain, non-atomic; read at `cs enter`, written at
+      `cs exit`, with a yield in between) -/
+  data : Nat
+  /-- the value of `shared` fiber `f` read when it entered the critical section -/
+  seen : Nat → Nat
 
 def tailNode (s : St) : Nat :=
   match s.order.getLast? with
@@ -126,7 +136,8 @@ def headNext (s : St) : Nat :=
 
 def init (stub : Nat) (nodeOf : Nat → Nat) : St :=
   { counter := 1, stub := stub, order := [], linked := fun _ => false, hd := 0, headNode := stub,
-    fnode := nodeOf, ndata := fun _ => 0, pc := fun _ => .idle, owner := none, inCs := [] }
+    fnode := nodeOf, ndata := fun _ => 0, pc := fun _ => .idle, owner := none, inCs := [],
+    waking := false, data := 0, seen := fun _ => 0 }
 
 def step (s : St) : Ev → Option St
   | .callLock f => if s.pc f = .idle then some { s with pc := upd s.pc f .lockCalled } else none
@@ -143,7 +154,9 @@ def step (s : St) : Ev → Option St
     match s.pc f with
     | .lockDec _ => if g = f ∧ v = SAVING then some { s with pc := upd s.pc f .waitSaving } else none
     | .wakeReadState g' st =>
-      if g = g' ∧ st = WAITING ∧ v = READY then some { s with pc := upd s.pc f .unlockDone } else none
+      if g = g' ∧ st = WAITING ∧ v = READY then
+        some { s with waking := false, pc := upd s.pc f .unlockDone }
+      else none
     | _ => none
   | .rNode f g n =>
     match s.pc f with
@@ -176,7 +189,8 @@ def step (s : St) : Ev → Option St
   | .retLock f =>
     match s.pc f with
     | .acquired => some { s with pc := upd s.pc f .held }
-    | .parked => if s.owner = some f then some { s with pc := upd s.pc f .held } else none
+    | .parked =>
+      if s.owner = some f ∧ s.waking = false then some { s with pc := upd s.pc f .held } else none
     | _ => none
   | .callTry f => if s.pc f = .idle then some { s with pc := upd s.pc f .tryCalled } else none
   | .casCounter f found ok =>
@@ -191,10 +205,19 @@ def step (s : St) : Ev → Option St
     match s.pc f with
     | .tryDone r' => if r = r' then some { s with pc := upd s.pc f (if r then .held else .idle) } else none
     | _ => none
-  | .csEnter f => if s.pc f = .held then some { s with inCs := f :: s.inCs } else none
-  | .csExit f => if s.pc f = .held then some { s with inCs := s.inCs.filter (· ≠ f) } else none
+  | .csEnter f =>
+    -- `v = shared` (plain read; not logged, kept in `seen`)
+    if s.pc f = .held ∧ f ∉ s.inCs then
+      some { s with inCs := f :: s.inCs, seen := upd s.seen f s.data }
+    else none
+  | .csExit f v =>
+    -- `shared = v + 1`: the note carries the value written
+    if s.pc f = .held ∧ f ∈ s.inCs ∧ v = s.seen f + 1 then
+      some { s with inCs := s.inCs.filter (· ≠ f), data := v }
+    else none
   | .callUnlock f =>
-    if s.pc f = .held ∧ s.owner = some f then some { s with pc := upd s.pc f .unlockCalled } else none
+    -- client grammar: unlock by the owner, after its critical section ended
+    if s.pc f = .held ∧ s.owner = some f ∧ f ∉ s.inCs then some { s with pc := upd s.pc f .unlockCalled } else none
   | .fadd f old =>
     match s.pc f with
     | .unlockCalled =>
@@ -222,7 +245,8 @@ def step (s : St) : Ev → Option St
         match s.order[s.hd]? with
         | some (_, g) =>
           -- the pop takes effect: the oldest announced waiter becomes the owner
-          some { s with headNode := x, hd := s.hd + 1, owner := some g, pc := upd s.pc f (.popMoved h x) }
+          some { s with headNode := x, hd := s.hd + 1, owner := some g, waking := true,
+                        pc := upd s.pc f (.popMoved h x) }
         | none => none
       else none
     | _ => none
@@ -236,7 +260,7 @@ def step (s : St) : Ev → Option St
     | .wakeGaveNode _ g' =>
       if g = g' ∧ (v = WAITING ∨ v = SAVING) then
         if v = WAITING then some { s with pc := upd s.pc f (.wakeReadState g v) }
-        else some { s with pc := upd s.pc f .unlockDone }   -- still SAVING: scheduled as is
+        else some { s with waking := false, pc := upd s.pc f .unlockDone }   -- still SAVING: scheduled as is
       else none
     | _ => none
   | .retUnlock f =>
@@ -282,7 +306,7 @@ def ofRaw (r : RawEv) : Option (Option Ev) :=
   | "note", ["call", "unlock"] => some (some (.callUnlock f))
   | "note", ["ret", "unlock"] => some (some (.retUnlock f))
   | "note", "cs" :: "enter" :: _ => some (some (.csEnter f))
-  | "note", "cs" :: "exit" :: _ => some (some (.csExit f))
+  | "note", ["cs", "exit", _, v] => v.toNat?.map (fun v => some (.csExit f v))
   | "note", _ => some none
   | "fsub", ["counter", old, "1", _] => (parseInt32 old).map (fun o => some (.fsub f o))
   | "fadd", ["counter", old, "1", _] => (parseInt32 old).map (fun o => some (.fadd f o))
@@ -322,7 +346,7 @@ def monitor (evs : List Ev) : Option String :=
   let rec go (inside : List Nat) : List Ev → Option String
     | [] => none
     | .csEnter f :: es => if inside ≠ [] then some s!"mutual exclusion: fiber {f} entered while {inside} inside" else go (f :: inside) es
-    | .csExit f :: es => go (inside.filter (· ≠ f)) es
+    | .csExit f _ :: es => go (inside.filter (· ≠ f)) es
     | _ :: es => go inside es
   go [] evs
 
